@@ -333,14 +333,19 @@ func Run(t *testing.T, sc *Scenario, emit func([]vh.Event, map[string]int)) {
 			r.doStep(st)
 		}
 		rec.Log("Teardown")
-		for round := 0; round < 40; round++ {
+		// until no HTTP request is pending and no handler is running or about to start (the handler of a notification
+		// may start after its request has been answered): two quiet rounds in a row
+		quiet := 0
+		for round := 0; round < 60 && quiet < 2; round++ {
 			r.doStep(Step{A: "hretall"})
 			r.doStep(Step{A: "drain"})
 			r.mu.Lock()
-			p := r.pend
+			busy := r.pend != 0 || len(r.run) != 0
 			r.mu.Unlock()
-			if p == 0 {
-				break
+			if busy {
+				quiet = 0
+			} else {
+				quiet++
 			}
 		}
 		rec.Log("Final")
